@@ -646,8 +646,16 @@ pub fn ramps(thorough: bool) -> Vec<(&'static str, usize, String)> {
     out
 }
 
-pub fn measure_pairs() -> Vec<(&'static str, usize, usize)> {
-    SKEL_CONSTRUCTS.iter().map(|c| (*c, 8usize, 24usize)).collect()
+/// depths at which the stack is measured; below the nesting limit when the implementation has one
+pub fn measure_pairs(lim: Option<usize>) -> Vec<(&'static str, usize, usize)> {
+    let (d1, d2) = match lim {
+        None => (8usize, 24usize),
+        Some(l) => {
+            let d2 = (l.saturating_sub(4) / 2).clamp(3, 24);
+            ((d2 / 3).max(1), d2)
+        }
+    };
+    SKEL_CONSTRUCTS.iter().map(|c| (*c, d1, d2)).collect()
 }
 
 // ------------------------------------------------------------------------------------------------
@@ -977,7 +985,9 @@ pub fn skeleton_soups(seed: u64, thorough: bool) -> Vec<String> {
     }
     // the ramps at small depths
     for c in SKEL_CONSTRUCTS {
-        for d in [0usize, 1, 2, 3, 5, 8] {
+        // small depths, and depths around the limits a repaired parser is likely to use (24 / 64 / 128 counted
+        // levels): all far below today's overflow thresholds on the 8 MiB stack
+        for d in [0usize, 1, 2, 3, 5, 8, 10, 11, 12, 13, 20, 21, 22, 23, 24, 25, 26, 30, 31, 32, 33, 50, 62, 63, 64, 65] {
             out.push(ramp_text(c, d));
         }
     }
